@@ -269,7 +269,8 @@ class AlgDomain:
 
     # ---- ufuncs
     UN = {np.negative: lambda x: -x, np.positive: lambda x: x, np.conjugate: _conj, np.sqrt: _sqrt, np.absolute: _abs,
-          np.cos: _cos, np.sin: _sin, np.exp: _exp, np.square: lambda x: x * x, np.reciprocal: lambda x: 1 / x}
+          np.cos: _cos, np.sin: _sin, np.exp: _exp, np.square: lambda x: x * x, np.reciprocal: lambda x: 1 / x,
+          np.sign: lambda x: _sign(x), np.log1p: lambda x: _log1p(x), np.log: lambda x: _log(x)}
     @staticmethod
     def _maximum(a, b):
         d = sp.expand(a - b)
@@ -303,7 +304,7 @@ class AlgDomain:
             rt = np.float64 if rt is np.complex128 else np.float32
         if any(isinstance(x, float) for x in inputs) and np.dtype(rt).kind in 'iub':
             rt = np.float64
-        if ufunc in (np.sqrt, np.cos, np.sin, np.exp) and np.dtype(rt).kind in 'iub':
+        if ufunc in (np.sqrt, np.cos, np.sin, np.exp, np.log1p, np.log) and np.dtype(rt).kind in 'iub':
             rt = np.float64
         return rt
 
@@ -408,13 +409,13 @@ class AlgDomain:
         raise Unsupported('min of symbolic reals')
 
     def scalar_fn(self, name, x):
-        f = {'sqrt': np.sqrt, 'exp': np.exp, 'cos': np.cos, 'sin': np.sin, 'abs': np.absolute}.get(name)
+        f = {'sqrt': np.sqrt, 'exp': np.exp, 'cos': np.cos, 'sin': np.sin, 'abs': np.absolute, 'log': np.log}.get(name)
         if isinstance(x, SymArray):
             if f is None:
                 raise Unsupported(f'np.{name} on symbolic array')
             return f(x)
         if isinstance(x, sp.Basic):
-            g = {'sqrt': _sqrt, 'exp': _exp, 'cos': _cos, 'sin': _sin, 'abs': _abs}.get(name)
+            g = {'sqrt': _sqrt, 'exp': _exp, 'cos': _cos, 'sin': _sin, 'abs': _abs, 'log': _log}.get(name)
             if g is None:
                 raise Unsupported(f'np.{name} of a symbolic scalar')
             return g(x)
@@ -612,6 +613,41 @@ def _softplus(x):
             return s
     s = CTX[0].fresh('softplus_', positive=True)
     CTX[0].other[s] = ('softplus', xe, [('>', s, 0), ('>', s, xe)])
+    return s
+
+
+def _log(x):
+    """np.log of a positive exact constant (stays an exact sympy constant); symbolic arguments are outside the engine"""
+    x = exact(x) if not isinstance(x, sp.Basic) else x
+    if x.free_symbols or not (x.is_real and x.is_positive):
+        raise Unsupported('np.log of a symbolic or non-positive argument')
+    return sp.log(x)
+
+
+def _sign(x):
+    """np.sign of a real: decided from the sign assumptions carried by the symbols (a contract that wants to cover all reals enumerates the three
+    cases with a positive, a zero and a negative input); a real of unknown sign is outside the engine (no path forking in the Alg domain)"""
+    x = exact(x) if not isinstance(x, sp.Basic) else x
+    v = sp.sign(sp.expand(x))
+    if v in (sp.Integer(-1), sp.Integer(0), sp.Integer(1)):
+        return v
+    raise Unsupported('np.sign of a symbolic real of unknown sign')
+
+
+def _log1p(x):
+    """np.log1p of a real argument: exact 0 at 0; for an argument known to be positive a fresh symbol l with the axioms 0 < l < x
+    (sound over the reals: 0 < log(1+x) < x for x > 0). Other arguments are outside the engine."""
+    x = exact(x) if not isinstance(x, sp.Basic) else x
+    xe = sp.expand(x)
+    if xe == 0:
+        return sp.Integer(0)
+    if not xe.is_positive:
+        raise Unsupported('np.log1p of an argument that is not known to be positive')
+    for s, (fname, arg, ax) in CTX[0].other.items():
+        if fname == 'log1p' and sp.expand(arg - xe) == 0:
+            return s
+    s = CTX[0].fresh('log1p_', positive=True)
+    CTX[0].other[s] = ('log1p', xe, [('>', s, 0), ('<', s, xe)])
     return s
 
 
